@@ -53,7 +53,7 @@ func RandUTF8(r *core.Rand, n int) string {
 }
 
 // DelimAlphabet is the alphabet hostile template sources are drawn from.
-var DelimAlphabet = []string{"{", "}", "%", "-", "\"", "'", "|", ":", ".", "[", "]", "(", ")", " ", "\n", "a", "1", ",", "=", "{{", "}}", "{%", "%}", "if", "for", "end", "x"}
+var DelimAlphabet = []string{"{", "}", "%", "-", "\"", "'", "\\", "|", ":", ".", "[", "]", "(", ")", " ", "\n", "a", "1", ",", "=", "{{", "}}", "{%", "%}", "if", "for", "end", "x"}
 
 // RandDelimString draws n symbols from DelimAlphabet.
 func RandDelimString(r *core.Rand, n int) string {
@@ -69,6 +69,29 @@ func NoOpen(s string) string {
 	for strings.Contains(s, "{{") || strings.Contains(s, "{%") {
 		s = strings.ReplaceAll(s, "{{", "{ {")
 		s = strings.ReplaceAll(s, "{%", "{ %")
+	}
+	return s
+}
+
+// RandLiteralBody returns the body of a string literal quoted with q: arbitrary awkward text that does not
+// contain q, a line break or a delimiter — backslashes (also as the last character), escapes that Liquid does
+// not have, the other quote, NUL, multi-byte characters.
+func RandLiteralBody(r *core.Rand, q byte) string {
+	bits := []string{"\\", "\\n", "\\t", "\\x41", "\\u00e9", "\\\\", "a", "Z", " ", "0", "é", "𝄞", "\x00", "\t", "|", ":", ",", ".", "[", "(", "-", "%", "{", "}", "\"", "'", "\\'", "\\\""}
+	var sb strings.Builder
+	for n := r.Intn(7); n > 0; n-- {
+		b := bits[r.Intn(len(bits))]
+		if strings.IndexByte(b, q) >= 0 {
+			continue
+		}
+		sb.WriteString(b)
+	}
+	if r.P(1, 3) {
+		sb.WriteString("\\")
+	}
+	s := sb.String()
+	for _, d := range []string{"{{", "}}", "{%", "%}"} {
+		s = strings.ReplaceAll(s, d, d[:1]+" "+d[1:])
 	}
 	return s
 }
